@@ -23,6 +23,7 @@ EXPLANATION = (
     "before it is raised; (R5) the sync and async siblings (supersteps, run, map, execute loops, executors of the same node class) perform the "
     "same set of package actions with the same keywords, the same validation order and the same guard for materialising a node's result; (R6) the "
     "scheduler writes nothing but stale-decision deletions, consults no clock/random source and never lets set iteration order reach the ready list. R5 also compares, for the two execute loops, under which guards (calls in the enclosing branch conditions, looked through single-assignment locals) each constructed exception is raised: the same program must not complete under one runner and report InfiniteLoopError under the other. R6 also requires that the list handed to a superstep is exactly the scheduler's result (not truncated to the concurrency limit, re-filtered or re-ordered)."
+    " R6 also requires that activation is an existential over a node's controlling gates (the scan stops only on success) and that the table of bindings surfaced from nested graphs is merged independently of the node-list order (open finding F29). R5's interrupt-related one-sided extras rest on the checked premise that only the async runner registers an InterruptNode executor."
 )
 NOT_DECIDED = "Equality of outcomes across node-list permutations and anything about computed values; fairness/timing of the event loop."
 
